@@ -46,6 +46,8 @@ type mconnCase struct {
 	IdleBefore []int `json:"idle_before,omitempty"`
 	// Large: the channels have receive capacity mconnLargeCap instead of chanRecvMsgCap
 	Large bool `json:"large,omitempty"`
+	// SwapPrio: the FIRST channel of the connection has the high priority (5) and the second the low one (1)
+	SwapPrio bool `json:"swap_prio,omitempty"`
 	// Words: the messages of mconnLargeMin bytes and more are arrays of 16-bit
 	// words (encoded element by element) instead of byte arrays (encoded by one
 	// copy); the encoded bytes are the same
@@ -70,6 +72,8 @@ func (mc mconnCase) sizeClass(n int) string {
 		return "at-capacity"
 	case n >= mconnLargeMin:
 		return "large"
+	case n > chanRecvMsgCap:
+		return "above-initial-buffer"
 	}
 	return sizeClass(n)
 }
@@ -226,6 +230,31 @@ func mconnScenarios() []mconnCase {
 		Sends: []mconnSend{{0, mconnLargeMin}, {1, mconnLargeMin}}, IdleBefore: []int{1}})
 	out = append(out, mconnCase{Name: "large-idle-small", Large: true, NoFollower: true,
 		Sends: []mconnSend{{0, mconnLargeMin}, {0, 1}, {1, 1024}}, IdleBefore: []int{1, 2}})
+	// two messages larger than the channels' initial receive buffers (4096) in flight at the same
+	// time, one per channel: the packets of the two interleave, so each channel's partly
+	// reassembled message has to survive the other channel's buffer growing
+	for _, size := range []int{4097, 12289, mconnLargeMin} {
+		out = append(out, mconnCase{Name: fmt.Sprintf("large-pair-concurrent-%d", size), Large: true, Concurrent: true,
+			Sends: []mconnSend{{0, size}, {1, size}}})
+		out = append(out, mconnCase{Name: fmt.Sprintf("large-pair-concurrent-%d-first-channel-fast", size), Large: true, Concurrent: true, SwapPrio: true,
+			Sends: []mconnSend{{0, size}, {1, size}}})
+		out = append(out, mconnCase{Name: fmt.Sprintf("large-pair-concurrent-%d-then-again", size), Large: true, Concurrent: true,
+			Sends: []mconnSend{{0, size}, {1, size}, {1, size}, {0, size}}})
+	}
+	for _, swap := range []bool{false, true} {
+		for _, small := range []int{1025, 2049, 4096} {
+			for _, big := range []int{4097, 6145, 12289} {
+				slow, fast := 0, 1 // without SwapPrio channel 1 has the high priority
+				if swap {
+					slow, fast = 1, 0
+				}
+				out = append(out, mconnCase{Name: fmt.Sprintf("first-messages-slow-%d-fast-%d-swap-%v", small, big, swap), Large: true, SwapPrio: swap,
+					Sends: []mconnSend{{slow, small}, {fast, big}}})
+				out = append(out, mconnCase{Name: fmt.Sprintf("first-messages-fast-%d-slow-%d-swap-%v", big, small, swap), Large: true, SwapPrio: swap,
+					Sends: []mconnSend{{fast, big}, {slow, small}}})
+			}
+		}
+	}
 	out = append(out, mconnCase{Name: "large-oversize-on-idle", Large: true, NoFollower: true,
 		Sends: []mconnSend{{0, mconnSentinel}, {0, mconnLargeCap + 1}}, IdleBefore: []int{1}})
 	return out
@@ -242,7 +271,13 @@ type mconnOutcome struct {
 
 var mconnChIDs = []byte{0x20, 0x21}
 
-func mconnDescs(capacity int) []*p2p.ChannelDescriptor {
+func mconnDescs(capacity int, swapPrio bool) []*p2p.ChannelDescriptor {
+	if swapPrio {
+		return []*p2p.ChannelDescriptor{
+			{ID: mconnChIDs[0], Priority: 5, SendQueueCapacity: chanSendQueueCap, RecvMessageCapacity: capacity},
+			{ID: mconnChIDs[1], Priority: 1, SendQueueCapacity: chanSendQueueCap, RecvMessageCapacity: capacity},
+		}
+	}
 	return []*p2p.ChannelDescriptor{
 		{ID: mconnChIDs[0], Priority: 1, SendQueueCapacity: chanSendQueueCap, RecvMessageCapacity: capacity},
 		{ID: mconnChIDs[1], Priority: 5, SendQueueCapacity: chanSendQueueCap, RecvMessageCapacity: capacity},
@@ -345,8 +380,8 @@ func mconnRun(mc mconnCase, idle time.Duration, alive func()) (o mconnOutcome) {
 		notify()
 	}
 	var sendErr atomic.Value
-	sender := p2p.NewMConnection(conf, sc[0], mconnDescs(capacity), func(byte, []byte) {}, func(r interface{}) { sendErr.Store(fmt.Sprint(r)); notify() })
-	receiver := p2p.NewMConnection(conf, sc[1], mconnDescs(capacity), onReceive, onRecvErr)
+	sender := p2p.NewMConnection(conf, sc[0], mconnDescs(capacity, mc.SwapPrio), func(byte, []byte) {}, func(r interface{}) { sendErr.Store(fmt.Sprint(r)); notify() })
+	receiver := p2p.NewMConnection(conf, sc[1], mconnDescs(capacity, mc.SwapPrio), onReceive, onRecvErr)
 	toStop = []*p2p.MConnection{sender, receiver}
 	sender.Start()
 	receiver.Start()
